@@ -1,13 +1,14 @@
 (* Check/Chk_C18.v -- correspondence checker for C18.
-   One case = one configuration dictionary (after the array conversions: every array field a list)
-   and an optional VariableScaler context.  Observations of the real code: the result of
+   One case = one configuration dictionary (after the array conversions: every array field a list),
+   an optional VariableScaler and optional non-linear constraint scales as validation context.  Observations of the real code: the result of
    EnOptConfig.model_validate (canonical fields, or None when it raised a ValidationError), whether
    validating the validated object returns it, the result of validating its dump and the JSON round
    trip of its dump without a context, and the reachability sweep (per pydantic class: fields probed /
    assignments accepted; arrays probed / writable).  [check_case] runs Model/Config.v [validate] on the
    raw input and compares field by field (reals with Num.close, discrete fields exactly), evaluates the
    canonical-form clauses directly on the observation, compares the re-validated results with the first
-   one and the accepted assignments with the flag map of the generated class table. *)
+   one and the accepted assignments with the flag map of the generated class table.  A case whose accepted
+   configuration holds NaN/inf where the model has a rational (k_bad) fails. *)
 From Coq Require Import String.
 From Coq Require Import QArith Qabs ZArith List Bool Arith.
 From Ropt Require Import Base.Num Base.ListX Gen.Generated Model.Config Gen.Gen_C18.
